@@ -37,7 +37,7 @@ func runCase(t *testing.T, run *core.Run, name string, idx int, rng *rand.Rand) 
 	}
 	ch := w.Ch
 	defer ch.Close()
-	blocks := core.Pick(18, 60)
+	blocks := core.Pick(18, 50)
 	fail := func(kind string, h uint64, d map[string]any) {
 		d["case"], d["height"] = name, h
 		run.Violation(kind, "^"+name+"$", d)
@@ -169,7 +169,7 @@ func TestCheck(t *testing.T) {
 	defer run.Finish()
 	run.MinDistinct = 2
 	run.Assume("both nodes are in the same governance-vote mode (approve list); process-wide caches are purged when control passes between nodes of one test binary")
-	n := core.Pick(6, 150)
+	n := core.Pick(6, 120)
 	run.Sharded(n, func(i int) {
 		name := fmt.Sprintf("chain/%d", i)
 		if run.Want(name) {
